@@ -506,6 +506,7 @@ pub fn alphabet() -> Alphabet {
         stw_enw: true,
         self_uuid: true,
         invalid: false,
+        empty_groups: false,
     };
     al.self_uuid = true;
     al
